@@ -359,6 +359,17 @@ def base_case(draw, name, max_len=8, max_src=4, steps="full", min_len=0, min_src
                 s_["items"].insert(pos, ["same"])
                 total += 1
                 longest = max(longest, len(s_["items"]))
+    if any(f.get("kind") == "bycall" for f in fns.values()) and draw(st.booleans()):
+        # keys by call order AND one object at two places: the two occurrences have different keys
+        cands = [s_ for s_ in srcs if s_.get("alias") is None and len(s_["items"]) >= 2]
+        if cands:
+            s_ = cands[draw(st.integers(0, len(cands) - 1))]
+            pos = draw(st.integers(2, len(s_["items"])))
+            j = draw(st.integers(0, pos - 2))
+            if s_["items"][j][0] not in ("c", "same"):
+                s_["items"].insert(pos, ["same", j])
+                total += 1
+                longest = max(longest, len(s_["items"]))
     # consumer plan
     if tool.kind == "agg":
         plan = []
